@@ -9,6 +9,7 @@ def conc (_ : Json) : R Res :=
 def handle (k : String) (inp : Json) : Option (R Res) :=
   match k with
   | "c05.conc" => some (conc inp)
+  | "c05.stale" => some (conc inp)
   | _ => none
 
 end Hub.Drv.C05
